@@ -76,6 +76,25 @@ def mentions(rec):
     return []
 
 
+def positions_fit(x, sid, slen):
+    """do the positions which E/F record x gives on segment sid fit a segment of length slen?
+    ('$' exactly on slen, nothing beyond slen)"""
+    cols = []
+    if x.rt == "E":
+        cols = [c for i, c in ((1, (3, 4)), (2, (5, 6))) if x.pos[i][:-1] == sid]
+    elif x.rt == "F" and x.pos[0] == sid:
+        cols = [(2, 3)]
+    for cc in cols:
+        for c in cc:
+            p = x.pos[c]
+            if not p.rstrip("$").isdigit():
+                return False
+            if (p.endswith("$") and int(p[:-1]) != slen) or int(p.rstrip("$")) > slen or \
+                    (not p.endswith("$") and int(p) == slen):
+                return False
+    return True
+
+
 class Model:
     def __init__(self, version, lines=()):
         self.version = version
@@ -176,6 +195,25 @@ class Model:
             return "unspec"
         if n is not None and any(m == n for m, role in mentions(rec)):
             return "unspec"         # a record which mentions its own identifier
+        if self.version == "gfa2" and rec.rt in ("E", "F", "S"):
+            # positions are checked against the segment length by validate(), not by add_line():
+            # a step which makes them disagree denotes an invalid text, yet need not fail
+            names = self.names()
+            if rec.rt == "S":
+                try:
+                    if not all(positions_fit(x, rec.pos[0], int(rec.pos[1])) for x in self.recs if x.rt in ("E", "F")):
+                        return "unspec"
+                except ValueError:
+                    return "unspec"
+            else:
+                for m, role in mentions(rec):
+                    t = names.get(m)
+                    if t is not None and t.rt == "S":
+                        try:
+                            if not positions_fit(rec, m, int(t.pos[1])):
+                                return "unspec"
+                        except ValueError:
+                            return "unspec"
         if n is not None and n not in self.names():
             # the new identifier is mentioned somewhere in a role the record cannot play
             for x in self.recs:
